@@ -6,6 +6,7 @@ mod util;
 mod c17;
 mod c08;
 mod c09;
+mod c10;
 mod c02;
 mod c04;
 mod c05;
@@ -47,6 +48,7 @@ fn main() {
         "c07-replay" => c07::replay(rest),
         "c07-record" => c07::record(rest),
         "c09-record" => c09::record(rest),
+        "c10-run" => c10::run(rest),
         "c12-replay" => c12::replay(rest),
         "c13-replay" => c13::replay(rest),
         "c13-record" => c13::record(rest),
